@@ -1,14 +1,25 @@
 import Driver.Util
 import LemoModel.Merkle
 import LemoModel.Mpt
+import LemoModel.MptStore
 namespace Driver.C17
 open LemoModel Driver
 
 /-! line-protocol driver for C17: Merkle tree ops (`mt`, `ms`, `mv`) over the free hash algebra
     `HTerm`, and trie ops (`tnew`, `tput`, `tdel`, `tget`, `tdump`, `tcommit`, `treopen`). -/
 
+/-- state of the `s…` stream (partially resolved trie over the node pool, `LemoModel.MptStore`) -/
+structure SSt where
+  trie : MptStore.Trie := {}
+  db : MptStore.Db := {}
+  /-- the `small` oracle learnt from the real hasher: serialised collapsed node ↦ embedded? -/
+  table : List (List Nat × Bool) := []
+  /-- interned hashes, in order of first appearance in the output -/
+  ids : List MptStore.Hash := []
+
 structure St where
   trie : Mpt.Node := .empty
+  s : SSt := {}
 
 /-! ### helpers -/
 
@@ -102,6 +113,201 @@ def mutate (p : List (MNode HTerm)) (drop : Nat) (flip : Int) : List (MNode HTer
       | .root => m
     else m)
 
+/-! ### the `s…` stream: partially resolved trie, hasher, node pool (`LemoModel.MptStore`)
+
+  `hashOf` is instantiated by an injective serialisation of the collapsed node (so equal hashes ⇔
+  equal collapsed nodes, which is what the printed hash ids compare with Keccak on the Go side);
+  `small` by the table learnt from the embed/hash decisions of the real hasher that the op line of
+  `scommit` / `shash` carries (a function of the collapsed node; a contradiction is reported). -/
+
+namespace S
+open MptStore
+
+def ser : CNode → List Nat
+  | .empty => [0]
+  | .value v => 1 :: v.length :: v
+  | .hash h => 2 :: h.length :: h
+  | .short k c => 3 :: k.length :: (k.map (·.val)) ++ ser c
+  | .full ch => 4 :: (List.finRange 17).flatMap (fun i => ser (ch i))
+
+def lookupT : List (List Nat × Bool) → List Nat → Option Bool
+  | [], _ => none
+  | (k, b) :: rest, x => if k = x then some b else lookupT rest x
+
+/-- unknown nodes count as large (the shape comparison then shows a cached hash the real node lacks) -/
+def smallOf (table : List (List Nat × Bool)) (c : CNode) : Bool :=
+  (lookupT table (ser c)).getD false
+
+def stackDepth : Nat := 100000
+
+def parseNib? (c : Char) : Option Mpt.Nib :=
+  if c = 'g' then some 16 else (hexDigit? c).map (fun n => Fin.ofNat 17 n)
+
+def parsePath? (s : String) : Option (List Mpt.Nib) :=
+  s.toList.foldr (fun c acc => match parseNib? c, acc with
+    | some n, some l => some (n :: l)
+    | _, _ => none) (some [])
+
+/-- `p1:h,p2:e,…` or `-` -/
+def parseDecisions? (s : String) : Option (List (List Mpt.Nib × Bool)) :=
+  if s == "-" then some [] else
+  (s.splitOn ",").foldr (fun w acc =>
+    match w.splitOn ":", acc with
+    | [p, d], some l =>
+      match parsePath? p with
+      | some p => if d == "e" then some ((p, true) :: l) else if d == "h" then some ((p, false) :: l) else none
+      | none => none
+    | _, _ => none) (some [])
+
+def subtreeAt : PNode → List Mpt.Nib → Option PNode
+  | p, [] => some p
+  | .short K c _, path =>
+    match Mpt.stripPrefix K path with
+    | some rest => if K.isEmpty then none else subtreeAt c rest
+    | none => none
+  | .full ch _, i :: rest => subtreeAt (ch i) rest
+  | _, _ => none
+
+/-- learn the decisions deepest first: the collapsed form of a node depends on the decisions below it -/
+def learn (hashOf : CNode → Hash) (t : Trie) (commit : Bool) (table : List (List Nat × Bool))
+    (ds : List (List Mpt.Nib × Bool)) : Option (List (List Nat × Bool)) :=
+  let maxLen := ds.foldl (fun m d => max m d.1.length) 0
+  let sorted := (List.range (maxLen + 1)).reverse.flatMap (fun l => ds.filter (fun d => d.1.length = l))
+  sorted.foldl (fun acc d =>
+    match acc with
+    | none => none
+    | some tb =>
+      match subtreeAt t.root d.1 with
+      | none => none
+      | some sub =>
+        let hs : Hasher := ⟨smallOf tb, hashOf, t.cachegen, t.cachelimit, commit⟩
+        let c := ser (kids hs sub)
+        match lookupT tb c with
+        | some b => if b = d.2 then some tb else none
+        | none => some ((c, d.2) :: tb)) (some table)
+
+def internId (ids : List Hash) (h : Hash) : List Hash × Nat :=
+  let i := ids.idxOf h
+  if i < ids.length then (ids, i) else (ids ++ [h], ids.length)
+
+/-- printed items: text before the hash id, optional hash, text after -/
+def items : PNode → List Mpt.Nib → List (String × Option Hash × String)
+  | .empty, _ => []
+  | .value v, path => [("/" ++ showPath path ++ ":v" ++ (if v.isEmpty then "-" else showHex v), none, "")]
+  | .hash h, path => [("/" ++ showPath path ++ ":", some h, "")]
+  | .short K c f, path =>
+    ("/" ++ showPath path ++ ":s" ++ showPath K ++ "[" ++ (if f.dirty then "d" else "c") ++ toString f.gen, f.hash, "]")
+      :: items c (path ++ K)
+  | .full ch f, path =>
+    ("/" ++ showPath path ++ ":f[" ++ (if f.dirty then "d" else "c") ++ toString f.gen, f.hash, "]")
+      :: (List.finRange 17).flatMap (fun i => items (ch i) (path ++ [i]))
+
+def render (ids : List Hash) (its : List (String × Option Hash × String)) : List Hash × List String :=
+  its.foldl (fun (acc : List Hash × List String) it =>
+    match it.2.1 with
+    | none => (acc.1, acc.2 ++ [it.1 ++ it.2.2])
+    | some h =>
+      let (ids', i) := internId acc.1 h
+      (ids', acc.2 ++ [it.1 ++ "#" ++ toString i ++ it.2.2])) (ids, [])
+
+def shape (ids : List Hash) (t : Trie) : List Hash × String :=
+  match t.root with
+  | .empty => (ids, "nil")
+  | r =>
+    let (ids', toks) := render ids (items r [])
+    (ids', " ".intercalate toks)
+
+def parseId? (s : String) : Option Nat :=
+  if s.startsWith "#" then (s.drop 1).toNat? else none
+
+def failStr {α : Type} : Res α → String
+  | .ok _ => "ok"
+  | .missing _ => "err missing"
+  | .panic => "panic"
+  | .overflow => "overflow"
+
+def step (s : SSt) (w : List String) : SSt × String :=
+  match w with
+  | ["snew", l] =>
+    match l.toNat? with
+    | some l => ({ trie := { cachelimit := l } }, "ok")
+    | none => (s, "bad-op")
+  | ["sput", k, v] =>
+    match parseHex? k, parseHex? v with
+    | some k, some v =>
+      match s.trie.update s.db.node stackDepth (Mpt.hexKey k) v with
+      | .ok t =>
+        let (ids, sh) := shape s.ids t
+        ({ s with trie := t, ids := ids }, "ok " ++ sh)
+      | r => (s, failStr r)
+    | _, _ => (s, "bad-op")
+  | ["sdel", k] =>
+    match parseHex? k with
+    | some k =>
+      match s.trie.remove s.db.node stackDepth (Mpt.hexKey k) with
+      | .ok t =>
+        let (ids, sh) := shape s.ids t
+        ({ s with trie := t, ids := ids }, "ok " ++ sh)
+      | r => (s, failStr r)
+    | none => (s, "bad-op")
+  | ["sget", k] =>
+    match parseHex? k with
+    | some k =>
+      match s.trie.get s.db.node stackDepth (Mpt.hexKey k) with
+      | .ok (v, t) =>
+        let (ids, sh) := shape s.ids t
+        ({ s with trie := t, ids := ids }, (match v with | some v => showHex v | none => "nil") ++ " " ++ sh)
+      | r => (s, failStr r)
+    | none => (s, "bad-op")
+  | ["scommit", ds] =>
+    match parseDecisions? ds with
+    | none => (s, "bad-op")
+    | some ds =>
+      match learn ser s.trie true s.table ds with
+      | none => (s, "small-oracle-inconsistent")
+      | some tb =>
+        match s.trie.commit (smallOf tb) ser with
+        | .ok (h, t, ws) =>
+          let db := s.db.insertAll ws
+          let (ids1, i) := internId s.ids h
+          let (ids, sh) := shape ids1 t
+          ({ trie := t, db := db, table := tb, ids := ids }, s!"root=#{i} mem={db.mem.length} {sh}")
+        | r => (s, failStr r)
+  | ["shash", ds] =>
+    match parseDecisions? ds with
+    | none => (s, "bad-op")
+    | some ds =>
+      match learn ser s.trie false s.table ds with
+      | none => (s, "small-oracle-inconsistent")
+      | some tb =>
+        match s.trie.hash (smallOf tb) ser with
+        | .ok (h, t) =>
+          let (ids1, i) := internId s.ids h
+          let (ids, sh) := shape ids1 t
+          ({ s with trie := t, table := tb, ids := ids }, s!"root=#{i} {sh}")
+        | r => (s, failStr r)
+  | ["sflush", id] =>
+    match (parseId? id).bind (fun i => s.ids[i]?) with
+    | none => (s, "bad-op")
+    | some h =>
+      match s.db.commit h with
+      | .ok db => ({ s with db := db }, s!"ok mem={db.mem.length}")
+      | r => (s, failStr r)
+  | ["sreopen", id, mode] =>
+    match (parseId? id).bind (fun i => s.ids[i]?) with
+    | none => (s, "bad-op")
+    | some h =>
+      let db := if mode == "fresh" then s.db.fresh else s.db
+      match Trie.new ser db.node h with
+      | .ok t =>
+        let t := { t with cachelimit := s.trie.cachelimit }
+        let (ids, sh) := shape s.ids t
+        ({ s with trie := t, db := db, ids := ids }, "ok " ++ sh)
+      | r => (s, failStr r)
+  | _ => (s, "bad-op")
+
+end S
+
 /-! ### step -/
 
 open Merkle in
@@ -158,6 +364,13 @@ def step (s : St) (w : List String) : St × String :=
   | ["tdump"] => (s, showDump s.trie)
   | ["tcommit"] => (s, showDump s.trie)      -- Commit is the identity on the resolved structure
   | ["treopen"] => (s, showDump s.trie)      -- so is reopening by root from the database
-  | _ => (s, "bad-op")
+  | w =>
+    match w with
+    | op :: _ =>
+      if op.startsWith "s" then
+        let (ss, out) := S.step s.s w
+        ({ s with s := ss }, out)
+      else (s, "bad-op")
+    | [] => (s, "bad-op")
 
 end Driver.C17
